@@ -31,7 +31,7 @@ def clean(s, n):
     return s if len(s) <= n else s[: n - 1] + "…"
 
 
-for name in sorted(os.listdir(root), key=key):
+for name in sorted((n for n in os.listdir(root) if re.match(r'C\d+(-r\d+)?-m\d+$', n)), key=key):
     p = os.path.join(root, name, "meta.json")
     if not os.path.exists(p):
         continue
@@ -43,7 +43,7 @@ table = ["| seeded change | round | what it does | what it needs | verdict of `.
 stats = {}
 for name in os.listdir(root):
     p = os.path.join(root, name, "meta.json")
-    if os.path.exists(p):
+    if os.path.exists(p) and re.match(r'C\d+(-r\d+)?-m\d+$', name):
         v = first_verdict(json.load(open(p)))
         k = "caught" if v.startswith("judge") else "missed" if v.startswith("missed") else "tie-only" if v.startswith("broken") else "other"
         r = key(name)[1]
